@@ -25,10 +25,10 @@ type tagTok struct {
 }
 
 type c19Field struct {
-	Type string `json:"type"` // name from fieldTypePool
+	Type string   `json:"type"` // name from fieldTypePool
 	Toks []tagTok `json:"toks"`
-	Form int    `json:"form"` // 0 whole tag, 1 parser:"..."
-	Raw  string `json:"raw,omitempty"` // if set: the tag text verbatim (raw soup incl. NUL etc.)
+	Form int      `json:"form"`          // 0 whole tag, 1 parser:"..."
+	Raw  string   `json:"raw,omitempty"` // if set: the tag text verbatim (raw soup incl. NUL etc.)
 }
 
 type c19Case struct {
@@ -676,8 +676,12 @@ func sortStrings(s []string) {
 	}
 }
 
-func TestC19(t *testing.T) {
-	runProp(t, "C19", c19Rule, func(t *rapid.T, r *vstat.Run) {
+func TestC19(t *testing.T) { runProp(t, "C19", c19Rule, propC19) }
+
+func FuzzC19(f *testing.F) { fuzzProp(f, "C19", propC19) }
+
+func propC19(t *rapid.T, r *vstat.Run) {
+	{
 		c := &c19Case{}
 		switch k := rapid.IntRange(0, 19).Draw(t, "origin"); {
 		case k <= 5:
@@ -724,7 +728,7 @@ func TestC19(t *testing.T) {
 			}
 		}
 		report(t, r, checkC19(c, r), c)
-	})
+	}
 }
 
 func TestC19Replay(t *testing.T) {
